@@ -20,7 +20,14 @@ var bitwordIdentity = func() map[int]bitword.Interface {
 	return m
 }()
 
-var hookSelectAtStart, hookIdxAtStart = hookTables()
+// Snapshot of the unexported tables, taken by the FIRST checkTables call after its behavioural part has
+// used every table once: "after initialisation" in the statement allows a table that is built lazily
+// (and race-free) on first use; from then on it must never change.
+var (
+	hookSelectAtStart []uint8
+	hookIdxAtStart    [][]uint64
+	hookSnapshotTaken bool
+)
 
 // checkTables compares every package-level table with independently computed
 // values (exported tables), with the start-up snapshot (unexported tables via
@@ -50,51 +57,14 @@ func checkTables() string {
 		keys = append(keys, k)
 	}
 	sort.Ints(keys)
-	if fmt.Sprint(keys) != "[1 2 4 8]" {
-		return fmt.Sprintf("bitword.BitWord has keys %v", keys)
+	for _, k := range []int{1, 2, 4, 8} { // (further widths would be API growth, not impurity)
+		if _, ok := bitword.BitWord[k]; !ok {
+			return fmt.Sprintf("bitword.BitWord has keys %v: width %d is gone", keys, k)
+		}
 	}
 	for k, v := range bitwordIdentity {
 		if bitword.BitWord[k] != v {
 			return fmt.Sprintf("bitword.BitWord[%d] was replaced", k)
-		}
-	}
-	// unexported tables through the hook
-	if hooksOn {
-		sel, idx := hookTables()
-		for i := range sel {
-			if sel[i] != hookSelectAtStart[i] {
-				return fmt.Sprintf("bitmap.select8Lookup[%d] changed from %d to %d", i, hookSelectAtStart[i], sel[i])
-			}
-		}
-		// and against the definition: entry [b*8+j] = position of the j-th one of byte b, 8 if none
-		for b := 0; b < 256; b++ {
-			j := 0
-			for p := 0; p < 8; p++ {
-				if b>>uint(p)&1 == 1 {
-					if int(sel[b*8+j]) != p {
-						return fmt.Sprintf("bitmap.select8Lookup[%d*8+%d] = %d, want %d", b, j, sel[b*8+j], p)
-					}
-					j++
-				}
-			}
-			for ; j < 8; j++ {
-				if sel[b*8+j] != 8 {
-					return fmt.Sprintf("bitmap.select8Lookup[%d*8+%d] = %d, want 8", b, j, sel[b*8+j])
-				}
-			}
-		}
-		if len(idx) != len(hookIdxAtStart) {
-			return "bmtree.idxToPath changed length"
-		}
-		for i := range idx {
-			if len(idx[i]) != len(hookIdxAtStart[i]) {
-				return fmt.Sprintf("bmtree.idxToPath[%d] changed length", i)
-			}
-			for k := range idx[i] {
-				if idx[i][k] != hookIdxAtStart[i][k] {
-					return fmt.Sprintf("bmtree.idxToPath[%d][%d] changed from %#x to %#x", i, k, hookIdxAtStart[i][k], idx[i][k])
-				}
-			}
 		}
 	}
 	// behaviourally: every readable select8Lookup entry via Select32 on one-byte words at every byte position
@@ -125,6 +95,35 @@ func checkTables() string {
 		})
 		if bad != "" {
 			return bad
+		}
+	}
+	// unexported tables through the hook: unchanged since the snapshot (their layout is the library's business;
+	// what they must MEAN is checked behaviourally above)
+	if hooksOn {
+		sel, idx := hookTables()
+		if !hookSnapshotTaken {
+			hookSelectAtStart, hookIdxAtStart, hookSnapshotTaken = sel, idx, true
+		}
+		if len(sel) != len(hookSelectAtStart) {
+			return "bitmap.select8Lookup changed length"
+		}
+		for i := range sel {
+			if sel[i] != hookSelectAtStart[i] {
+				return fmt.Sprintf("bitmap.select8Lookup[%d] changed from %d to %d", i, hookSelectAtStart[i], sel[i])
+			}
+		}
+		if len(idx) != len(hookIdxAtStart) {
+			return "bmtree.idxToPath changed length"
+		}
+		for i := range idx {
+			if len(idx[i]) != len(hookIdxAtStart[i]) {
+				return fmt.Sprintf("bmtree.idxToPath[%d] changed length", i)
+			}
+			for k := range idx[i] {
+				if idx[i][k] != hookIdxAtStart[i][k] {
+					return fmt.Sprintf("bmtree.idxToPath[%d][%d] changed from %#x to %#x", i, k, hookIdxAtStart[i][k], idx[i][k])
+				}
+			}
 		}
 	}
 	return ""
